@@ -2,7 +2,9 @@
    Only statements, [exact]s and Print Assumptions live here. *)
 From NDN Require Import Base.Prelude Base.Text Model.LvsAst Model.LvsChecker Model.LvsCompiler Spec.LvsSem Spec.LvsTree.
 From NDN Require Import Proofs.LvsMachine Proofs.LvsTreePaths Proofs.LvsCheckerThms Proofs.LvsSanity Proofs.LvsConstsAgree
-  Proofs.LvsFlatten Proofs.LvsGenTree Proofs.LvsCompileTree Proofs.LvsCompileThms.
+  Proofs.LvsFlatten Proofs.LvsGenTree Proofs.LvsCompileTree Proofs.LvsCompileThms Proofs.LvsTopOrder Proofs.LvsSortRules
+  Proofs.LvsNumbering Proofs.LvsReplicate Proofs.LvsCompileOk Proofs.LvsCompileStatic Proofs.LvsCompileAccepts.
+From NDN Require Import Spec.LvsChains.
 Local Open Scope N_scope.
 
 (* ---- the loader (Checker._sanity_check, with the recursion budget [sanity_fuel m] = #nodes + 1) ---- *)
@@ -48,11 +50,47 @@ Theorem C13_terminates_check ufn m (Hs : sane m) fuel pkt key p k :
 Proof. exact (lvs_check_halts ufn m Hs fuel pkt key p k). Qed.
 Print Assumptions C13_terminates_check.
 
-(* ---- compiled models pass the tree part of the loader ---- *)
-Theorem C13_compile_accepts_partial (ufn : ident -> option (bytes -> list (option bytes) -> res bool)) S chains st m :
-  chains_of S = Ok (chains, st) -> compile S = Ok m -> chains_ok (N.of_nat (length (ns_named st))) chains -> sane m.
-Proof. exact (compile_sane ufn S chains st m). Qed.
-Print Assumptions C13_compile_accepts_partial.
+(* ---- the compiler (compile = sort references, number patterns, replicate, build tree, resolve signers) ---- *)
+
+(* whatever the input, the only exception compile raises is SemanticError *)
+Theorem C13_compile_error_class S e : compile S = Err e -> e = ESemantic.
+Proof. exact (compile_err S e). Qed.
+Print Assumptions C13_compile_error_class.
+
+(* one lemma per error kind, stated on the source text *)
+Theorem C13_compile_rejects_undefined_or_temporary_rule S d c :
+  In d S -> In c (rule_refs d) -> defined S c = false -> compile S = Err ESemantic.
+Proof. exact (compile_rejects_bad_reference S d c). Qed.
+Print Assumptions C13_compile_rejects_undefined_or_temporary_rule.
+
+(* a -> c1 -> ... -> cn -> a along rule references *)
+Theorem C13_compile_rejects_cyclic_references S a cyc : src_walk S a a cyc -> compile S = Err ESemantic.
+Proof. exact (compile_rejects_cyclic_references S a cyc). Qed.
+Print Assumptions C13_compile_rejects_cyclic_references.
+
+(* [LvsSem.cons_ok S d tc = false]: tc constrains a temporary pattern that is not in d's own name, or a named pattern
+   that occurs in no rule name, or one of its options / function arguments is a temporary pattern or a named pattern that
+   occurs in no rule name *)
+Theorem C13_compile_rejects_bad_constraint S d cs tc :
+  In d S -> In cs (r_cons d) -> In tc cs -> LvsSem.cons_ok S d tc = false -> compile S = Err ESemantic.
+Proof. exact (compile_rejects_bad_constraint S d cs tc). Qed.
+Print Assumptions C13_compile_rejects_bad_constraint.
+
+(* a signer that is not an ordinary rule of the schema (k as the lexer produces it: no '#' after the first character) *)
+Theorem C13_compile_rejects_unknown_signer S d k :
+  In d S -> In k (r_sign d) -> defined S k = false -> ident_plain k -> compile S = Err ESemantic.
+Proof. exact (compile_rejects_unknown_signer S d k). Qed.
+Print Assumptions C13_compile_rejects_unknown_signer.
+
+(* a schema free of static errors compiles -- [static_ok] only looks at the reference structure, never at the spelling or
+   the order of rule names -- and the result satisfies every sanity rule of the loader.  [schema_wf]: literal components are
+   non-empty byte strings and function identifiers look like "$name" (what the lexer produces) *)
+Theorem C13_compile_accepts S : static_ok S = true -> schema_wf S = true -> exists m, compile S = Ok m /\ sane m.
+Proof.
+  intros H1 H2. destruct (compile_accepts S H1 H2) as (chains & st & m & Hc & Hm & Hok).
+  exists m. split; [exact Hm|]. exact (compile_sane (fun _ => None) S chains st m Hc Hm Hok).
+Qed.
+Print Assumptions C13_compile_accepts.
 
 (* T1 tie re-established on this run *)
 Theorem C13_tie_version :
